@@ -22,9 +22,9 @@ func (ex *Exec) now() *Term {
 		ex.timeNow = ex.freshInt("now", lo, hi)
 		return ex.timeNow
 	}
-	// later instants: strictly increasing (nanosecond clock), less than one second later (native replays run
+	// later instants: strictly increasing (nanosecond clock), less than a millisecond later (native replays run
 	// within milliseconds; harnesses place timestamps on a whole-second grid relative to now)
-	d := ex.freshInt("dt", big.NewInt(1), big.NewInt(999999999))
+	d := ex.freshInt("dt", big.NewInt(1), big.NewInt(999999))
 	t := mkAdd(ex.timeNow, d)
 	ex.timeNow = t
 	return t
